@@ -30,6 +30,7 @@ def has_attr(case):
 
 
 KNOWN_TYPE_WHERE = "type-where-resolved-in-importing-scope"
+KNOWN_UNIQUE_STALE = "unique-stale-unqualified-lookup-crash"
 
 
 def oracle(case, tool, ob):
@@ -42,6 +43,10 @@ def oracle(case, tool, ob):
         return (KNOWN_TYPE_WHERE, f"{tool} rejects a well-formed multi-schema file: {d0[1]}:{d0[2]}: {d0[3]!r} — the function is declared in the "
                                   "type's own schema; the WHERE rule of the imported type was resolved in the importing schema's scope")
     crashed = st in ("abort", "timeout") or st.startswith("signal")
+    if crashed and case.cls == "needless-qualifier-then-unique":
+        return (KNOWN_UNIQUE_STALE, f"{tool} ends with {st} on a valid schema: a UNIQUE rule `SELF\\sup.a` on an attribute the entity redeclares, followed "
+                                    f"by a rule that names another attribute without a qualifier ({case.note}); ENTITYresolve_uniques keeps the "
+                                    "unqualified look-up of the first reference and reports UNIQUE_QUAL_REDECL through expr->e.op2 of an identifier")
     if tool == "exp2python" and crashed and case.verdict == "accept" and not errs:
         if any(l.startswith("iface ") and l.endswith(" items") for l in case.proto):
             return (KNOWN_PY_IFACE, f"exp2python ends with {st} (not on every run) on a valid multi-schema file with a partial USE/REFERENCE clause: "
